@@ -3,6 +3,7 @@ package main
 import (
 	"fmt"
 	"regexp"
+	"strconv"
 	"strings"
 	"unicode/utf8"
 
@@ -225,6 +226,10 @@ var c16Broken = []struct {
 	{"filter-yesno-four", "{{ t|yesno:\"a,b,c,d\" }}", true},
 	{"filter-time-nontime", "{{ v|time:\"15\" }}", true},
 	{"filter-tag-limit", "{% filter center:10001 %}x{% endfilter %}", true},
+	// failures raised while a macro imported from another file runs, or by calling it wrongly
+	{"imported-macro-too-many", "{% import \"/c16lib.tpl\" lm %}{{ lm(1, 2) }}", true},
+	{"imported-macro-body-fails", "{% import \"/c16lib.tpl\" lfail %}{{ lfail() }}", true},
+	{"imported-macro-filter-fails", "{% import \"/c16lib.tpl\" lfilter as lf %}{{ lf(3) }}", true},
 	{"if-cond-error", "{% if 1 / zero %}x{% endif %}", true},
 	{"for-error", "{% for i in fail() %}x{% endfor %}", true},
 	{"lazy-include-missing", "{% include missingname %}", true},
@@ -257,8 +262,16 @@ type c16Obs struct {
 	nonPErr error
 }
 
+// a macro library every program may import from (also present in the sources the judge knows)
+const c16LibName = "/c16lib.tpl"
+const c16LibSrc = "lib line 1\n  {% macro lm(a) export %}[{{ a }}]{% endmacro %}\nlib line 3 {% macro lfail() export %}{{ fail() }}{% endmacro %}{% macro lfilter(x) export %}\n  {{ x|pluralize:\"a,b,c\" }}{% endmacro %}"
+
 func c16RunProg(files map[string]string, src string, ctx pongo2.Context) c16Obs {
-	set, _ := newSet(files)
+	withLib := map[string]string{c16LibName: c16LibSrc}
+	for k, v := range files {
+		withLib[k] = v
+	}
+	set, _ := newSet(withLib)
 	var tpl *pongo2.Template
 	var err error
 	if files != nil && src == "" {
@@ -291,6 +304,55 @@ func c16RunProg(files map[string]string, src string, ctx pongo2.Context) c16Obs 
 // c16JudgeError checks the structured fields of an error against the sources involved.
 // sources maps template names ("<string>", loader names) to their text.
 func c16JudgeError(o c16Obs, sources map[string]string) (string, bool) {
+	if _, has := sources[c16LibName]; !has {
+		withLib := map[string]string{c16LibName: c16LibSrc}
+		for k, v := range sources {
+			withLib[k] = v
+		}
+		sources = withLib
+	}
+	why, known := c16JudgeOne(o, sources)
+	if why != "" || o.err == nil {
+		return why, known
+	}
+	// errors quoted inside the error (the failure of a macro body, of an included template ...) are errors with positions
+	// too: each of them that names a template and a position must be right about both
+	inner := o.err.OrigError
+	for depth := 0; depth < 6 && inner != nil; depth++ {
+		pe, ok := inner.(*pongo2.Error)
+		if !ok || pe == nil {
+			break
+		}
+		if pe.Line > 0 && (pe.Filename != "" || pe.Token != nil) {
+			if w, _ := c16JudgeOne(c16Obs{err: pe, phase: "execute"}, sources); w != "" {
+				return fmt.Sprintf("the error quoted inside (level %d: %s): %s", depth+1, truncStr(pe.Error(), 160), w), known
+			}
+		}
+		inner = pe.OrigError
+	}
+	// the same for positions that are only QUOTED in the message (an inner error turned into text): "in F | Line L Col C
+	// near 'T'" must be true of F wherever F is one of the templates involved
+	for _, m := range reQuotedPos.FindAllStringSubmatch(o.err.Error(), -1) {
+		src, isSource := sources[m[1]]
+		if !isSource || m[4] == "" {
+			continue
+		}
+		line, _ := strconv.Atoi(m[2])
+		col, _ := strconv.Atoi(m[3])
+		found := false
+		for typ := 0; typ <= 10 && !found; typ++ {
+			found = positionOK(src, line, col, typ, m[4], false) || positionOK(src, line, col, typ, m[4], true)
+		}
+		if !found {
+			return fmt.Sprintf("the message says: in %s | Line %d Col %d near '%s' - that text is not at that place of %s", m[1], line, col, m[4], m[1]), known
+		}
+	}
+	return "", known
+}
+
+var reQuotedPos = regexp.MustCompile(`in (\S+) \| Line (\d+) Col (\d+) near '(.*?)'\] `)
+
+func c16JudgeOne(o c16Obs, sources map[string]string) (string, bool) {
 	if o.nonPErr != nil {
 		return "error is not a *pongo2.Error: " + o.nonPErr.Error(), false
 	}
